@@ -1,51 +1,77 @@
 package sim
 
-// Shrink minimises a failing choice sequence. run executes the system with the given source and returns the violation
-// class ("" if none). A candidate is accepted when it fails with the same class and its canonical recorded sequence is
-// shorter, or equally long and lexicographically smaller. The procedure is deterministic and bounded by maxRuns.
-func Shrink(vals []int, class string, maxRuns int, run func(Source) string) (best []int, runs int) {
-	try := func(cand []int) ([]int, bool) {
+// Shrink minimises a failing run. run executes the system with the given source and returns the violation class
+// ("" if none). A candidate is accepted when it fails with the same class and its canonical recorded choices are
+// smaller: fewer generator draws, then fewer schedule draws, then lexicographically smaller. The generator stream and
+// the schedule stream are shrunk alternately, each with the other held fixed. Deterministic, bounded by maxRuns.
+func Shrink(vals Choices, class string, maxRuns int, run func(Source) string) (best Choices, runs int) {
+	try := func(cand Choices) (Choices, bool) {
 		if runs >= maxRuns {
-			return nil, false
+			return Choices{}, false
 		}
 		runs++
 		rec := &Recorder{In: &Replay{Vals: cand}}
 		if run(rec) != class {
-			return nil, false
+			return Choices{}, false
 		}
 		return rec.Values(), true
 	}
-	less := func(a, b []int) bool {
+	lessList := func(a, b []int) int {
 		if len(a) != len(b) {
-			return len(a) < len(b)
+			if len(a) < len(b) {
+				return -1
+			}
+			return 1
 		}
 		for i := range a {
 			if a[i] != b[i] {
-				return a[i] < b[i]
+				if a[i] < b[i] {
+					return -1
+				}
+				return 1
 			}
 		}
-		return false
+		return 0
 	}
-	// canonicalise first
-	best = append([]int(nil), vals...)
+	less := func(a, b Choices) bool {
+		if c := lessList(a.Gen, b.Gen); c != 0 {
+			return c < 0
+		}
+		return lessList(a.Sched, b.Sched) < 0
+	}
+	best = vals
 	if c, ok := try(best); ok {
 		best = c
 	} else {
 		return vals, runs
 	}
-	for improved := true; improved && runs < maxRuns; {
-		improved = false
+	// get/set one stream of a Choices value
+	get := func(c Choices, sched bool) []int {
+		if sched {
+			return c.Sched
+		}
+		return c.Gen
+	}
+	with := func(c Choices, sched bool, l []int) Choices {
+		if sched {
+			return Choices{Gen: c.Gen, Sched: l}
+		}
+		return Choices{Gen: l, Sched: c.Sched}
+	}
+	pass := func(sched bool) bool {
+		improved := false
 		// 1. delete blocks, large to small, from the end
-		for size := len(best) / 2; size >= 1; size /= 2 {
-			for start := len(best) - size; start >= 0 && runs < maxRuns; {
-				if start+size > len(best) {
-					start = len(best) - size
+		for size := len(get(best, sched)) / 2; size >= 1; size /= 2 {
+			for start := len(get(best, sched)) - size; start >= 0 && runs < maxRuns; {
+				cur := get(best, sched)
+				if start+size > len(cur) {
+					start = len(cur) - size
 					if start < 0 {
 						break
 					}
 				}
-				cand := append(append([]int(nil), best[:start]...), best[start+size:]...)
-				if c, ok := try(cand); ok && less(c, best) {
+				cand := append(append([]int(nil), cur[:start]...), cur[start+size:]...)
+				if c, ok := try(with(best, sched, cand)); ok && less(c, best) {
 					best = c
 					improved = true
 					start -= size
@@ -59,9 +85,10 @@ func Shrink(vals []int, class string, maxRuns int, run func(Source) string) (bes
 		}
 		// 2. zero blocks
 		for size := 8; size >= 1; size /= 2 {
-			for start := 0; start+size <= len(best) && runs < maxRuns; start += size {
+			for start := 0; start+size <= len(get(best, sched)) && runs < maxRuns; start += size {
+				cur := get(best, sched)
 				allZero := true
-				for _, v := range best[start : start+size] {
+				for _, v := range cur[start : start+size] {
 					if v != 0 {
 						allZero = false
 						break
@@ -70,48 +97,53 @@ func Shrink(vals []int, class string, maxRuns int, run func(Source) string) (bes
 				if allZero {
 					continue
 				}
-				cand := append([]int(nil), best...)
+				cand := append([]int(nil), cur...)
 				for i := start; i < start+size; i++ {
 					cand[i] = 0
 				}
-				if c, ok := try(cand); ok && less(c, best) {
+				if c, ok := try(with(best, sched, cand)); ok && less(c, best) {
 					best = c
 					improved = true
 				}
 			}
 		}
 		// 3. lower single values
-		for i := 0; i < len(best) && runs < maxRuns; i++ {
-			for best[i] > 0 && runs < maxRuns {
-				cand := append([]int(nil), best...)
+		for i := 0; i < len(get(best, sched)) && runs < maxRuns; i++ {
+			for runs < maxRuns {
+				cur := get(best, sched)
+				if i >= len(cur) || cur[i] == 0 {
+					break
+				}
+				cand := append([]int(nil), cur...)
 				if cand[i] > 1 {
 					cand[i] /= 2
 				} else {
 					cand[i] = 0
 				}
-				c, ok := try(cand)
-				if ok && less(c, best) {
+				if c, ok := try(with(best, sched, cand)); ok && less(c, best) {
 					best = c
 					improved = true
-					if i >= len(best) {
-						break
-					}
 					continue
 				}
-				if best[i] > 1 {
-					cand = append([]int(nil), best...)
+				if cur[i] > 1 {
+					cand = append([]int(nil), cur...)
 					cand[i]--
-					if c, ok := try(cand); ok && less(c, best) {
+					if c, ok := try(with(best, sched, cand)); ok && less(c, best) {
 						best = c
 						improved = true
-						if i >= len(best) {
-							break
-						}
 						continue
 					}
 				}
 				break
 			}
+		}
+		return improved
+	}
+	for runs < maxRuns {
+		a := pass(false)
+		b := pass(true)
+		if !a && !b {
+			break
 		}
 	}
 	return best, runs
